@@ -616,6 +616,41 @@ func pbC08(m pbMsg, nmax int) {
 	verifReach("end")
 }
 
+// corrupted length prefixes: the key of a field (numbers 1..6 cover O/R/U of every kind message and the fields of the
+// composites) with the length-delimited wire type, then an arbitrary - possibly over-long or overflowing - varint
+// as its declared length, then a short arbitrary tail
+func pbC08Len(m pbMsg) {
+	num := nondetInt("field")
+	verifAssume(num >= 1)
+	verifAssume(num <= 6)
+	num = verifConcretize(num)
+	lp := nondetBytes("len", 10)
+	if verifTier() == 0 {
+		verifAssume(len(lp) <= 2 || len(lp) >= 9)
+	}
+	lp = lp[:verifConcretize(len(lp))]
+	// one varint: continuation bits on all bytes but the last (the tenth byte is arbitrary: overflowing and
+	// unterminated prefixes included)
+	for i := range lp {
+		if i < len(lp)-1 {
+			verifAssume(lp[i] >= 0x80)
+		} else if i < 9 {
+			verifAssume(lp[i] < 0x80)
+		}
+	}
+	tail := nondetBytes("tail", 1+2*verifTier())
+	tail = tail[:verifConcretize(len(tail))]
+	p := protowire.AppendTag(make([]byte, 0, 32), protowire.Number(num), protowire.BytesType)
+	p = append(p, lp...)
+	p = append(p, tail...)
+	verifAllocLimit(8*len(p) + 64)
+	err := m.Unmarshal(p)
+	if err == nil {
+		verifAssertAgreesIfRefAccepts(m, p, "native: both the generated Unmarshal and the reference runtime accept the input, but decode different messages")
+	}
+	verifReach("end")
+}
+
 func c08N(q, t int) int {
 	if verifTier() == 1 {
 		return t
@@ -638,6 +673,22 @@ func H_C08_Node()     { pbC08(&Node{}, c08N(5, 6)) }
 func H_C08_One()      { pbC08(&One{}, c08N(4, 6)) }
 func H_C08_Maps()     { pbC08(&Maps{}, c08N(4, 6)) }
 func H_C08_Mix()      { pbC08(&Mix{}, c08N(4, 6)) }
+
+func H_C08_Len_SInt32()    { pbC08Len(&SInt32{}) }
+func H_C08_Len_SSint64()   { pbC08Len(&SSint64{}) }
+func H_C08_Len_SFixed32()  { pbC08Len(&SFixed32{}) }
+func H_C08_Len_SSfixed64() { pbC08Len(&SSfixed64{}) }
+func H_C08_Len_SFloat()    { pbC08Len(&SFloat{}) }
+func H_C08_Len_SDouble()   { pbC08Len(&SDouble{}) }
+func H_C08_Len_SBool()     { pbC08Len(&SBool{}) }
+func H_C08_Len_SEnum()     { pbC08Len(&SEnum{}) }
+func H_C08_Len_SString()   { pbC08Len(&SString{}) }
+func H_C08_Len_SBytes()    { pbC08Len(&SBytes{}) }
+func H_C08_Len_Msgs()      { pbC08Len(&Msgs{}) }
+func H_C08_Len_Node()      { pbC08Len(&Node{}) }
+func H_C08_Len_One()       { pbC08Len(&One{}) }
+func H_C08_Len_Maps()      { pbC08Len(&Maps{}) }
+func H_C08_Len_Mix()       { pbC08Len(&Mix{}) }
 
 
 // ======================================================================================================
@@ -700,3 +751,4 @@ func H_C09_Own_Mix()  { pbC09Own(mkMix("")) }
 func H_C09_Own_Maps() {
 	pbC09Own(&Maps{Ss: map[string]int32{string(pbBytes1("k")): nondetI32("v")}, Sl: map[string]*Leaf{"a": mkLeaf("l_", false)}})
 }
+
